@@ -869,7 +869,7 @@ class Topology:
                     arguments['_locate_point'] = p = numpy.array(ref.centroid)
                     ex = ep = numpy.inf
                     iiter = 0
-                    while ex > tol and ep > eps:  # newton loop
+                    while ex > tol and (ep > eps or not eps):  # newton loop
                         if iiter > maxiter > 0:
                             break  # maximum number of iterations reached
                         iiter += 1
